@@ -11,7 +11,8 @@ RULE = ("real filepath_to_string / hash_one_input line layouts / parse_check_lin
         "at every position of the valid lines of all four kinds (plain, escaped, --tag, escaped --tag; LF, CRLF, no "
         "terminator); print->parse round trips of OS paths (double spaces, ') = ', 'BLAKE3 (' prefixes, backslashes, "
         "CR, LF, blanks, invalid UTF-8) in both forms; byte strings over the UTF-8 boundary bytes for the lossy decoder; "
-        "random lines. Two runs: the model configuration that matches the code under test (model tie) and the repaired "
+        "random lines; the REAL binary's printed lines (plain and --tag) for files with special names against the model's "
+        "print_line, and the real --check on that real output. Two runs: the model configuration that matches the code under test (model tie) and the repaired "
         "configuration for which the theorems are proved (specification). Non-trivial = distinct case whose model "
         "result is not the plain format error.")
 MODELLED = ["String::from_utf8_lossy (core::str::lossy) as Model.B3sum.utf8_lossy; str::{split_once, rsplit_once, "
@@ -176,9 +177,11 @@ def correspondence(ctx):
     if ctx.tier == "thorough":
         builds.append(("default", "release"))
     for flavour, profile in builds:
-        b = probe_bin(ctx.need_harness(flavour, profile, crate="b3sum", hooks=False))
+        realbin = ctx.need_harness(flavour, profile, crate="b3sum", hooks=False)
+        b = probe_bin(realbin)
         if b is None or drv is None:
             continue
+        binary_lines(ctx, drv, realbin, flavour, profile)
         cfg = probe_cfg(b)
         ctx.log("code under test matches model configuration tagged_first=%s hex_unwrap_is_error=%s" % (cfg[0], cfg[1]))
         ctx.extra_cov = {"probed_configuration": {"tagged_first": cfg[0] == "1", "hex_unwrap_is_error": cfg[1] == "1"}}
@@ -214,6 +217,74 @@ def spec_compare(ctx, name, cases, drv, probe, profile, flavour):
                                  "build": f"{flavour}/{profile}"})
     ctx.stats[name + "/" + flavour + "/" + profile] = {"cases": len(cases), "disagreements": nfail}
     ctx.log(f"correspondence {name} [{flavour}/{profile}]: {len(cases)} cases, {nfail} disagreements")
+
+
+def binary_lines(ctx, drv, binary, flavour, profile):
+    """The lines the REAL binary prints (hash_one_input itself, not the harness's transcription print_line) for files
+    with special names, in the plain and --tag forms, against the model's print_line; then the real --check on the
+    real output (LF and CRLF line ends) must report every file OK: the printed line denotes the file it was printed for."""
+    import shutil
+    import subprocess
+    import tempfile
+    names = [bp for bp in BPATHS if bp and b"/" not in bp and b"\x00" not in bp and bp not in (b".", b"..", b"-")
+             and len(bp) < 200]
+    # pairs that differ only by escaping: the escaped spelling of one is the literal name of the other
+    names += [b"lit\nl", b"lit\\nl", b"cr\rx", b"cr\\rx", b"bs\\\\x"]
+    names = sorted(set(names))
+    d = tempfile.mkdtemp(prefix="c13bin", dir=os.path.join("/verif", "build"))
+    nfail = ncases = 0
+    try:
+        for i, nm in enumerate(names):
+            with open(os.path.join(d.encode(), nm), "wb") as f:
+                f.write(b"content of file %d\n" % i)
+        for form in ("plain", "tag"):
+            flag = ["--tag"] if form == "tag" else []
+            listing = b""
+            nvalid = 0
+            want_lines = []
+            mlines = []
+            hashes = []
+            for nm in names:
+                r = subprocess.run([binary, "--no-names", "--", nm], cwd=d, stdout=subprocess.PIPE, stderr=subprocess.PIPE)
+                hashes.append(r.stdout.decode().strip())
+            mres = verif.run_model(drv, ["p%d print %s %s %s" % (i, form, hx(nm), h) for i, (nm, h) in enumerate(zip(names, hashes))])
+            for i, nm in enumerate(names):
+                r = subprocess.run([binary] + flag + ["--", nm], cwd=d, stdout=subprocess.PIPE, stderr=subprocess.PIPE)
+                got = hx(r.stdout)
+                want = mres.get("p%d" % i, "MISSING")
+                ncases += 1
+                ctx.evaluations += 1
+                ctx.nontrivial.add("binary-line %s %s" % (form, hx(nm)))
+                if got != want or r.returncode != 0:
+                    nfail += 1
+                    ctx.failures.append({"correspondence": "binary line layout", "case": "print %s %s %s" % (form, hx(nm), hashes[i]),
+                                         "model": want, "impl": "%d %s" % (r.returncode, got), "build": "%s/%s" % (flavour, profile)})
+                # the round trip is claimed for paths that are valid UTF-8 without U+FFFD (others print lossily and are
+                # rejected by --check on purpose: covered by the probe cases above)
+                try:
+                    valid = "\ufffd" not in nm.decode("utf-8")
+                except UnicodeDecodeError:
+                    valid = False
+                if valid:
+                    listing += r.stdout
+                    nvalid += 1
+            for term in (b"\n", b"\r\n"):
+                data = listing if term == b"\n" else listing.replace(b"\n", b"\r\n")
+                r = subprocess.run([binary, "--check"], cwd=d, input=data, stdout=subprocess.PIPE, stderr=subprocess.PIPE)
+                ncases += 1
+                ctx.evaluations += 1
+                ok_lines = [l for l in r.stdout.split(b"\n") if l.endswith(b": OK")]
+                if r.returncode != 0 or len(ok_lines) != nvalid:
+                    nfail += 1
+                    ctx.failures.append({"correspondence": "binary round trip (print then --check)",
+                                         "case": "b3sum %s <%d special names> | b3sum --check (%s)" % (" ".join(flag), nvalid, "CRLF" if term != b"\n" else "LF"),
+                                         "model": "status 0, %d lines OK" % nvalid,
+                                         "impl": "status %d, %d OK; %s" % (r.returncode, len(ok_lines), (r.stdout + r.stderr)[-600:].decode("utf-8", "replace")),
+                                         "build": "%s/%s" % (flavour, profile)})
+    finally:
+        shutil.rmtree(d, ignore_errors=True)
+    ctx.stats["binary-lines/%s/%s" % (flavour, profile)] = {"cases": ncases, "disagreements": nfail}
+    ctx.log("binary line layout + round trip [%s/%s]: %d cases, %d disagreements" % (flavour, profile, ncases, nfail))
 
 
 def classify(f):
